@@ -335,6 +335,58 @@ theorem RH.set_empty {sl : List (Slot N)} (hrh : RH sl) {i : Nat} (hi : i < sl.l
 /-- the array holds the entry `e` -/
 def Has (sl : List (Slot N)) (e : Slot N) : Prop := ∃ j, j < sl.length ∧ Occ sl j ∧ sg sl j = e
 
+
+/-- the pairs stored in a slot array, in slot order -/
+def entries (sl : List (Slot N)) : List (Slot N) := sl.filter (fun s => !s.1.isNil)
+
+omit [LawfulNum N] in
+theorem entries_cons (a : Slot N) (l : List (Slot N)) :
+    entries (a :: l) = if a.1.isNil then entries l else a :: entries l := by
+  unfold entries; rw [List.filter_cons]; cases a.1.isNil <;> simp
+
+omit [LawfulNum N] in
+/-- overwriting an occupied slot swaps one entry for another -/
+theorem entries_set_occ : ∀ (sl : List (Slot N)) (i : Nat) (new : Slot N), i < sl.length → Occ sl i → new.1.isNil = false →
+    (sg sl i :: entries (sl.set i new)).Perm (new :: entries sl)
+  | [], _, _, h, _, _ => by simp at h
+  | a :: l, 0, new, _, ho, hn => by
+      have ha : a.1.isNil = false := by simpa [Occ, sg] using ho
+      simp only [List.set_cons_zero, entries_cons, hn, ha, Bool.false_eq_true, if_false]
+      simp only [sg, List.getD_cons_zero]
+      exact List.Perm.swap _ _ _
+  | a :: l, i + 1, new, h, ho, hn => by
+      have ih := entries_set_occ l i new (by simpa using h) (by simpa [Occ, sg] using ho) hn
+      have e : sg (a :: l) (i + 1) = sg l i := by simp [sg]
+      rw [e]
+      simp only [List.set_cons_succ, entries_cons]
+      cases a.1.isNil with
+      | true => simpa using ih
+      | false =>
+        simp only [Bool.false_eq_true, if_false]
+        exact ((List.Perm.swap _ _ _).trans (ih.cons a)).trans (List.Perm.swap _ _ _)
+
+omit [LawfulNum N] in
+/-- filling an empty slot adds one entry -/
+theorem entries_set_empty : ∀ (sl : List (Slot N)) (i : Nat) (new : Slot N), i < sl.length → ¬ Occ sl i → new.1.isNil = false →
+    (entries (sl.set i new)).Perm (new :: entries sl)
+  | [], _, _, h, _, _ => by simp at h
+  | a :: l, 0, new, _, ho, hn => by
+      have ha : a.1.isNil = true := by
+        cases h : a.1.isNil with
+        | true => rfl
+        | false => exact absurd (by simpa [Occ, sg] using h) ho
+      simp only [List.set_cons_zero, entries_cons, hn, ha, Bool.false_eq_true, if_false, if_true]
+      exact List.Perm.refl _
+  | a :: l, i + 1, new, h, ho, hn => by
+      have ih := entries_set_empty l i new (by simpa using h) (by simpa [Occ, sg] using ho) hn
+      simp only [List.set_cons_succ, entries_cons]
+      cases a.1.isNil with
+      | true => simpa using ih
+      | false =>
+        simp only [Bool.false_eq_true, if_false]
+        exact (ih.cons a).trans (List.Perm.swap _ _ _)
+
+
 theorem putLoop_step_empty {cap : Nat} {replace : Bool} {fuel i dist : Nat} {key value : JVal N} {h : UInt32}
     {sl : List (Slot N)} (he : (sg sl i).1.isNil = true) :
     putLoop cap replace (fuel + 1) i dist key value h sl = (sl.set i (key, value), true) := by
@@ -421,7 +473,8 @@ theorem putLoop_spec (cap : Nat) (replace : Bool) (i0 : Nat) (hi0 : i0 < cap) :
         sl'.length = cap ∧ RH sl' ∧ ¬ Occ sl f ∧
         (∀ j, j < cap → dst cap j i < dst cap f i → Occ sl j) ∧
         (∀ j, Occ sl' j ↔ (Occ sl j ∨ j = f)) ∧
-        (∀ e, Has sl' e ↔ (Has sl e ∨ e = (key, value))) := by
+        (∀ e, Has sl' e ↔ (Has sl e ∨ e = (key, value))) ∧
+        (entries sl').Perm ((key, value) :: entries sl) := by
   intro fuel
   induction fuel with
   | zero =>
@@ -498,10 +551,10 @@ theorem putLoop_spec (cap : Nat) (replace : Bool) (i0 : Nat) (hi0 : i0 < cap) :
               cases hce : contentEq (sg sl i).1 (sg sl j).1 with
               | false => rfl
               | true => exact absurd (hrh.distinct i j hi hj hocc hoj hce).symm hji)
-        obtain ⟨f, sl', hf, hres, hlen', hrh', hnf, hpth, hocc2, hhas⟩ := this
+        obtain ⟨f, sl', hf, hres, hlen', hrh', hnf, hpth, hocc2, hhas, hperm⟩ := this
         rw [hrdn] at hres
         have hfi : f ≠ i := fun e => hnf (by rw [e, hoc1]; exact hocc)
-        refine ⟨f, sl', hf, ?_, hlen', hrh', fun h => hnf ((hoc1 f).mpr h), ?_, ?_, ?_⟩
+        refine ⟨f, sl', hf, ?_, hlen', hrh', fun h => hnf ((hoc1 f).mpr h), ?_, ?_, ?_, ?_⟩
         · have e : (sg sl i) = ((sg sl i).1, (sg sl i).2) := rfl
           exact hres
         · intro j hj hlt
@@ -523,6 +576,7 @@ theorem putLoop_spec (cap : Nat) (replace : Bool) (i0 : Nat) (hi0 : i0 < cap) :
               · exact Or.inr he
               · exact Or.inl (Or.inl ⟨h1, he⟩)
             · exact Or.inl (Or.inr h1)
+        · exact hperm.trans (entries_set_occ sl i (key, value) hi hocc hk)
       | lt =>
         have hkd : dst sl.length i (hm sl.length key) + 1 < sl.length :=
           no_full rfl hi hk_home hz hpath hocc rfl
@@ -546,10 +600,10 @@ theorem putLoop_spec (cap : Nat) (replace : Bool) (i0 : Nat) (hi0 : i0 < cap) :
             rw [hst] at this
             exact this)
           hnew
-        obtain ⟨f, sl', hf, hres, hlen', hrh', hnf, hpth, hocc2, hhas⟩ := this
+        obtain ⟨f, sl', hf, hres, hlen', hrh', hnf, hpth, hocc2, hhas, hperm⟩ := this
         rw [hkdn] at hres
         have hfi : f ≠ i := fun e => hnf (by rw [e]; exact hocc)
-        refine ⟨f, sl', hf, hres, hlen', hrh', hnf, ?_, hocc2, hhas⟩
+        refine ⟨f, sl', hf, hres, hlen', hrh', hnf, ?_, hocc2, hhas, hperm⟩
         intro j hj hlt
         by_cases hji : j = i
         · subst hji; exact hocc
@@ -560,11 +614,12 @@ theorem putLoop_spec (cap : Nat) (replace : Bool) (i0 : Nat) (hi0 : i0 < cap) :
       have hemp : (sg sl i).1.isNil = true := by
         unfold Occ at hocc; cases h : (sg sl i).1.isNil <;> simp_all
       rw [putLoop_step_empty hemp]
-      refine ⟨i, sl.set i (key, value), hi, rfl, by simp, hrh.set_empty hi hocc hk hpath hprev hnew, hocc, ?_, ?_, ?_⟩
+      refine ⟨i, sl.set i (key, value), hi, rfl, by simp, hrh.set_empty hi hocc hk hpath hprev hnew, hocc, ?_, ?_, ?_, ?_⟩
       · intro j hj hlt; rw [dst_self hi] at hlt; omega
       · intro j; rw [occ_set hi]; by_cases h : j = i
         · subst h; simp [hk]
         · simp [h]
       · intro e; exact has_set_empty hi hocc hk e
+      · exact entries_set_empty sl i (key, value) hi hocc hk
 
 end JanetModel.Value
